@@ -73,9 +73,9 @@ TABLE_CALLS = WL_CALLS + [(r'^find\|nano::tensor_size_t \(const nano::hashes_t &
                           (r'^ctor\|nano::tensor_t<nano::tensor_carray_storage_t, long, 1>\|', '{0}')]   # indices_cmap_t(indices_t): same view
 
 
-def size0_hook(tu):
+def size0_hook(tu, total_ok=False):
     """tensor.size<0>() on a rank-4 tensor -> .rows; the template argument is not in the JSON dump, so the hook reads it
-    from the source text of the call and refuses anything but <0>"""
+    from the source text of the call and refuses anything but <0> (total_ok: a plain size() is left to the members table)"""
     import re
 
     def h(P, n):
@@ -86,6 +86,8 @@ def size0_hook(tu):
             return None
         b, e = astload.source_text(n)
         text = open(astload.resolve_tu(tu), 'rb').read()[b:e].decode()
+        if total_ok and re.search(r'size\s*\(\s*\)$', text):
+            return None
         if not re.search(r'size\s*<\s*0\s*>\s*\(\s*\)$', text):
             from cxx2c import Unsupported
             raise Unsupported(f'rank-4 size call that is not size<0>(): {text!r}')
@@ -266,7 +268,7 @@ DT_MEMBERS = [(r'^size\|std::vector<nano::dtree_node_t', '{self}->n'),
 
 def dtree_fns():
     # size0_hook: `m_tables.size<0>()` (the repaired form of do_split's cluster construction) prints as .rows
-    k = dict(self_struct='struct nv_dtree', types=DT_TYPES, calls=DT_CALLS, members=DT_MEMBERS, hooks=[size0_hook(DTREE_CPP)])
+    k = dict(self_struct='struct nv_dtree', types=DT_TYPES, calls=DT_CALLS, members=DT_MEMBERS, hooks=[size0_hook(DTREE_CPP, total_ok=True)])
     pk = dict(k, calls=DT_CALLS + [(r'^operator\(\)\|typename tbase::t(const|mutable)ref \(const nano::tensor_size_t\)( const)?\|nano::tensor_t<nano::tensor_carray_storage_t, long, 1>', '{0}.p[{1}]'),
                                    (r'^ctor\|nano::tensor_t<nano::tensor_vector_storage_t, long, 1>\|', 'nv_ixs_of({0})'),
                                    (r'^operator\+=\|.*\|Eigen::MatrixBase<Eigen::Map<Eigen::Matrix<double, -1, 1, 0>, 0>\s*>', 'nv_row_add_at({&0}, {1})')],
